@@ -293,7 +293,7 @@ Proof. unfold s_put. rewrite owner_eqb_refl. reflexivity. Qed.
 Lemma step_ok st ss o : Rel st ss -> key_in_U o ->
   exists st', m_step st o = Ok (st', snd (s_step ss o)) /\ Rel st' (fst (s_step ss o)).
 Proof.
-  intros R KU. unfold m_step. destruct o as [ow k v|ow k|ow| | |r d|r|n|n]; cbn [m_step_gen s_step].
+  intros R KU. unfold m_step. destruct o as [ow k v|ow k|ow| | |r d|r|n|n|n|ow|ow]; cbn [m_step_gen s_step].
   - (* SetP *)
     pose proof (head_of_spec st ss ow R) as H. destruct (canon ss ow) as [cn|] eqn:C.
     + destruct H as (p & -> & S). cbn [bind].
@@ -474,6 +474,47 @@ Proof.
       * intros hd m Eh. apply nth_error_snoc in Eh as [[L Eh]|[-> ->]]; eauto.
     + apply Nat.leb_gt in E. assert (m_ncols st <? n = true) as -> by (apply Nat.ltb_lt; lia).
       cbn [bind]. eexists. split; [reflexivity|exact R].
+  - (* AddHeaders *)
+    eexists. split; [reflexivity|]. cbn [fst].
+    pose proof (resize_spec st n (R_cols _ _ R)) as RS.
+    cbn zeta in RS. destruct RS as (Rh & Rt & Rr & Rd & Rhd & Rn & Rc & Rcol).
+    destruct R. constructor; cbn [s_map s_ncols s_rows s_ndets s_handles].
+    + rewrite Rh. exact R_wf0.
+    + rewrite Rn. rewrite R_ncols0. reflexivity.
+    + exact Rc.
+    + rewrite Rr. exact R_rows0.
+    + rewrite Rd. exact R_dets0.
+    + rewrite Rhd. exact R_handles0.
+    + rewrite Rhd, Rn. intros hd m E. apply R_hbound0 in E. lia.
+    + intros o q Eo. rewrite Rh. unfold s_grow.
+      destruct o; cbn [slot] in Eo; rewrite ?Rt, ?Rr, ?Rd in Eo.
+      * apply R_good0. exact Eo.
+      * apply Rcol in Eo. rewrite <- R_ncols0.
+        destruct Eo as [[L Eo]|[L ->]].
+        -- assert (m_ncols st <? n0 = false) as -> by (apply Nat.ltb_ge; lia). apply R_good0. exact Eo.
+        -- assert (m_ncols st <? n0 = true) as -> by (apply Nat.ltb_lt; lia). apply good_empty.
+      * discriminate.
+      * apply R_good0. exact Eo.
+      * apply R_good0. exact Eo.
+      * apply R_good0. exact Eo.
+  - (* Touch *)
+    pose proof (head_of_spec st ss ow R) as H. destruct (canon ss ow) as [cn|] eqn:C.
+    + destruct H as (p & -> & S). cbn [bind]. eexists. split; [reflexivity|exact R].
+    + rewrite H. cbn [bind]. eexists. split; [reflexivity|exact R].
+  - (* NewCellOf *)
+    assert (is_cell_owner ow = s_is_cell ow) as -> by (destruct ow; reflexivity).
+    destruct (s_is_cell ow); [|eexists; split; [reflexivity|exact R]].
+    pose proof (head_of_spec st ss ow R) as H. destruct (canon ss ow) as [cn|] eqn:C.
+    + destruct H as (p & -> & S). cbn [bind]. eexists. split; [reflexivity|].
+      cbn [fst]. destruct R. constructor; cbn; auto.
+      * rewrite app_length. cbn. lia.
+      * intros o q Eo. destruct o; cbn [slot m_table m_cols m_rows m_dets] in Eo;
+          try (rewrite put_other by reflexivity; apply R_good0; exact Eo).
+        apply nth_error_snoc in Eo as [[L Eo]|[-> ->]].
+        -- rewrite put_other. { apply R_good0. exact Eo. }
+           cbn. apply Nat.eqb_neq. lia.
+        -- rewrite <- R_dets0. rewrite put_same. apply good_empty.
+    + rewrite H. cbn [bind]. eexists. split; [reflexivity|exact R].
 Qed.
 
 (* ---- histories *)
@@ -539,7 +580,7 @@ Proof.
   intros H [I1 I2].
   assert (m_inv st /\ m_ncols st <= m_ncols st /\ exists extra, m_handles st = m_handles st ++ extra) as Same.
   { split; [split; auto|]. split; auto. exists []. rewrite app_nil_r. reflexivity. }
-  unfold m_step in H. destruct o as [ow k v|ow k|ow| | |rr d|rr|n|n]; cbn [m_step_gen] in H.
+  unfold m_step in H. destruct o as [ow k v|ow k|ow| | |rr d|rr|n|n|n|ow|ow]; cbn [m_step_gen] in H.
   - destruct (head_of st ow) as [[p|]| |]; cbn [bind] in H; try discriminate.
     + destruct (hset_property (m_heap st) p k v) as [[h' p']| |]; cbn [bind fst snd] in H; try discriminate.
       inversion H; subst.
@@ -586,6 +627,18 @@ Proof.
       apply Nat.ltb_ge in E. cbn. split; [split; auto|].
       * intros hd m Eh. apply nth_error_snoc in Eh as [[L Eh]|[-> ->]]; eauto.
       * split; auto. exists [n]. reflexivity.
+  - inversion H; subst.
+    pose proof (resize_spec st n I1) as RS.
+    cbn zeta in RS. destruct RS as (Rh & Rt & Rr & Rd & Rhd & Rn & Rc & Rcol).
+    split; [split|split].
+    + exact Rc.
+    + rewrite Rhd, Rn. intros hd m E. apply I2 in E. lia.
+    + rewrite Rn. lia.
+    + exists []. rewrite Rhd, app_nil_r. reflexivity.
+  - destruct (head_of st ow) as [[p|]| |]; cbn [bind] in H; try discriminate; inversion H; subst; exact Same.
+  - destruct (is_cell_owner ow); [|inversion H; subst; exact Same].
+    destruct (head_of st ow) as [[p|]| |]; cbn [bind] in H; try discriminate; inversion H; subst; [|exact Same].
+    cbn. split; [split; auto|]. split; auto. exists []. rewrite app_nil_r. reflexivity.
 Qed.
 
 Lemma steps_inv ops : forall st st', m_steps st ops = Ok st' -> m_inv st ->
